@@ -10,10 +10,19 @@
 //   --schedules FILE      replay each schedule of FILE (one JSON array per line)
 //   --random N --seed S [--pct D] [--randprog]     N random controlled executions; with --randprog
 //        every execution draws its own program AND trait combination (--F/--strat/... ignored)
+//   --stress N --seed S   E5: N free-running rounds (real threads, no controller, inert hooks); every
+//        round draws a trait combination and a program for 2-4 growers (+ sometimes a reader), runs it
+//        truly concurrently on a fresh vector and writes ONE observation record, validated by
+//        spec/cvec/CVecObs.tla
 #include <dispenso/concurrent_vector.h>
 
+#include <sched.h>
 #include <stdlib.h>
+#include <time.h>
 #include <unistd.h>
+
+#include <mutex>
+#include <thread>
 
 #include "../ctl/ctl.h"
 #include "../ctl/drv_common.h"
@@ -453,8 +462,586 @@ Program randomProgram(uint64_t& rng, Config& c) {
 
 } // namespace
 
+
+// ------------------------------------------------------------------------------------------ E5
+// Free-running rounds.  No ctl::Controller exists, so every DISPENSO_VERIF_POINT is inert and the
+// threads race inside what the controlled engines treat as one atomic step.  The record of a round
+// contains only what a user of the public API can observe: what every call returned (in per-thread
+// program order), size() after the call, and - after all threads were joined - size(), the
+// contents and the element lifetime counters.
+namespace stress {
+
+constexpr int kMaxGrowers = 4;
+constexpr int kReaderIdx = kMaxGrowers; // worker index of the reader
+constexpr int kWorkers = kMaxGrowers + 1;
+constexpr int kMaxOps = 6;
+constexpr int kMaxN0 = 12;
+constexpr long long kMaxData = 2048; // contents logged at most up to this index
+constexpr uint32_t kLive = 0x4C495645u, kDead = 0xDEADDEADu;
+
+// per OS thread: the tag default-constructed elements get, and lifetime counters (no sharing)
+struct alignas(128) Slot {
+  int tag = 0;
+  long long ctors = 0, dtors = 0, dbl = 0, baddtor = 0;
+};
+Slot g_slots[kWorkers + 1]; // [0] main, [1 + w] worker w
+thread_local Slot* t_slot = &g_slots[0];
+
+// Element: a value, and a liveness word that tells construction over a live object and destruction
+// of a dead one.  A default-constructed element takes the tag of the operation its thread is
+// executing, so that the owner of EVERY slot can be read off the final contents.
+template <size_t N>
+struct SElem {
+  int val;
+  uint32_t magic;
+  char pad[N - 2 * sizeof(int)];
+  void init(int v) noexcept {
+    Slot* s = t_slot;
+    if (*reinterpret_cast<volatile uint32_t*>(&magic) == kLive)
+      ++s->dbl; // constructed over a live element
+    magic = kLive;
+    val = v;
+    ++s->ctors;
+  }
+  SElem() noexcept {
+    init(t_slot->tag);
+  }
+  explicit SElem(int v) noexcept {
+    init(v);
+  }
+  SElem(const SElem& o) noexcept {
+    init(o.val);
+  }
+  SElem(SElem&& o) noexcept {
+    init(o.val);
+  }
+  SElem& operator=(const SElem& o) noexcept {
+    val = o.val;
+    return *this;
+  }
+  SElem& operator=(SElem&& o) noexcept {
+    val = o.val;
+    return *this;
+  }
+  ~SElem() {
+    Slot* s = t_slot;
+    if (*reinterpret_cast<volatile uint32_t*>(&magic) != kLive)
+      ++s->baddtor; // destroyed twice / never constructed
+    magic = kDead;
+    ++s->dtors;
+  }
+};
+
+enum Kind { kPush, kPushm, kEmplace, kGrowd, kGrowv, kGrowr, kGrowi, kGen, kGtal, kGtalv, kNumKinds };
+const char* const kKindName[kNumKinds] =
+    {"push", "pushm", "emplace", "growd", "growv", "growr", "growi", "gen", "gtal", "gtalv"};
+inline bool kindIsGtal(int k) {
+  return k == kGtal || k == kGtalv;
+}
+// element j of the operation holds v + j (distinct values) or v (one value for the whole range)
+inline bool kindCounts(int k) {
+  return k == kGrowr || k == kGrowi || k == kGen;
+}
+
+struct SOp {
+  int kind = 0;
+  long long n = 0; // growth amount / grow_to_at_least target
+  int v = 0; // value tag: worker * 100000 + op index * 100
+  long long p = -1; // returned iterator - begin()
+  long long s = -1; // size() right after the call returned
+};
+struct Work {
+  int nops = 0;
+  SOp ops[kMaxOps];
+  int spin = 0;
+  long long mis = 0; // a reference / iterator taken earlier did not read its value
+  long long reads = 0;
+};
+struct Final {
+  long long size = 0, enddist = 0, itmis = 0;
+  std::vector<long long> data;
+};
+
+inline long long clip(long long x) {
+  return x > 100000000LL || x < -100000000LL ? -99999999LL : x;
+}
+
+struct Shared {
+  std::atomic<long long> go{-1}; // round the workers may run
+  std::atomic<int> done{0}; // workers that finished the round
+  std::atomic<int> growersDone{0};
+  std::atomic<int> quit{0};
+  std::atomic<long long> beat{0}; // wall clock (ns) of the last sign of life of the main thread
+  std::atomic<long long> round{0};
+  void* vec = nullptr;
+  int growers = 0, n0 = 0;
+  bool reader = false;
+  Work w[kWorkers];
+  void (*growerFn)(void*, Work&) = nullptr;
+  void (*readerFn)(void*, int, Work&, std::atomic<int>&, int) = nullptr;
+};
+Shared g_sh;
+std::mutex g_outMu;
+FILE* g_out = nullptr;
+long long g_roundsDone = 0, g_opsDone = 0;
+
+long long nowNs() {
+  timespec ts;
+  clock_gettime(CLOCK_MONOTONIC, &ts);
+  return (long long)ts.tv_sec * 1000000000LL + ts.tv_nsec;
+}
+inline void relax(unsigned& n) {
+  if ((++n & 0xffff) == 0)
+    sched_yield();
+}
+
+template <class V>
+struct SX {
+  using E = typename V::value_type;
+  using It = typename V::iterator;
+
+  static void* create(const Config& c) {
+    void* mem = nullptr;
+    if (posix_memalign(&mem, alignof(V) < 64 ? 64 : alignof(V), sizeof(V)) != 0)
+      _exit(3);
+    V* v = new (mem) V();
+    if ((int)v->firstBucketLen_ != c.f) {
+      fprintf(stderr, "ERROR drv_cvec: first bucket is %zu, expected %d\n", v->firstBucketLen_, c.f);
+      _exit(3);
+    }
+    for (int i = 1; i <= c.n0; ++i)
+      v->emplace_back(i);
+    return v;
+  }
+
+  static It doOp(V& v, const SOp& o) {
+    int val = o.v;
+    size_t n = (size_t)o.n;
+    switch (o.kind) {
+      case kPush: {
+        E x(val);
+        return v.push_back(static_cast<const E&>(x));
+      }
+      case kPushm: {
+        E x(val);
+        return v.push_back(std::move(x));
+      }
+      case kEmplace:
+        return v.emplace_back(val);
+      case kGrowd:
+        return v.grow_by(n); // default construction: the element takes t_slot->tag == val
+      case kGrowv: {
+        E x(val);
+        return v.grow_by(n, x);
+      }
+      case kGrowr: {
+        std::vector<E> src;
+        src.reserve(n);
+        for (size_t i = 0; i < n; ++i)
+          src.emplace_back(val + (int)i);
+        return v.grow_by(src.begin(), src.end());
+      }
+      case kGrowi:
+        switch (n) {
+          case 0:
+            return v.grow_by(std::initializer_list<E>{});
+          case 1:
+            return v.grow_by({E(val)});
+          case 2:
+            return v.grow_by({E(val), E(val + 1)});
+          default:
+            return v.grow_by({E(val), E(val + 1), E(val + 2)});
+        }
+      case kGen: {
+        int next = val;
+        return v.grow_by_generator(n, [&next]() { return E(next++); });
+      }
+      case kGtal:
+        return v.grow_to_at_least(n);
+      default: {
+        E x(val);
+        return v.grow_to_at_least(n, x);
+      }
+    }
+  }
+
+  struct Saved {
+    It it;
+    E* ref;
+    long long idx;
+    int val;
+  };
+
+  static void grower(void* pv, Work& w) {
+    V& v = *static_cast<V*>(pv);
+    Saved saved[2 * kMaxOps];
+    int ns = 0;
+    for (volatile int k = 0; k < w.spin; ++k) {
+    }
+    for (int i = 0; i < w.nops; ++i) {
+      SOp& o = w.ops[i];
+      t_slot->tag = o.v;
+      It ret = doOp(v, o);
+      long long p = (long long)(ret - v.begin());
+      long long s = (long long)v.size();
+      o.p = clip(p);
+      o.s = clip(s);
+      // the range [p, p + n) of a push / grow_by belongs to this thread and is constructed: keep the
+      // returned iterator, an iterator to the last element and references to both.  (The iterator a
+      // grow_to_at_least returns may point to an element another thread is still constructing.)
+      if (!kindIsGtal(o.kind) && o.n > 0) {
+        if (p < 0 || p + o.n > s)
+          ++w.mis; // not dereferenced; the validator rejects p / s anyway
+        else {
+          saved[ns++] = Saved{ret, &*ret, p, o.v};
+          if (o.n > 1) {
+            It last = ret + (ssize_t)(o.n - 1);
+            saved[ns++] = Saved{last, &*last, p + o.n - 1, kindCounts(o.kind) ? o.v + (int)o.n - 1 : o.v};
+          }
+        }
+      }
+      // every reference and iterator taken earlier still reads the value its owner wrote
+      for (int q = 0; q < ns; ++q) {
+        const Saved& z = saved[q];
+        if (z.ref->val != z.val)
+          ++w.mis;
+        if (z.it->val != z.val || &*z.it != z.ref)
+          ++w.mis;
+        if (&v[(size_t)z.idx] != z.ref || (long long)(z.it - v.begin()) != z.idx)
+          ++w.mis;
+      }
+    }
+  }
+
+  // reads the elements published before the round (values 1 .. n0) through references and iterators
+  // taken before anything grew, and through operator[], until every grower is done
+  static void reader(void* pv, int n0, Work& w, std::atomic<int>& growersDone, int growers) {
+    V& v = *static_cast<V*>(pv);
+    E* refs[kMaxN0];
+    It its[kMaxN0];
+    for (int i = 0; i < n0; ++i) {
+      refs[i] = &v[(size_t)i];
+      its[i] = v.begin() + (ssize_t)i;
+    }
+    long long last = (long long)v.size();
+    if (last < n0)
+      ++w.mis;
+    for (volatile int k = 0; k < w.spin; ++k) {
+    }
+    for (;;) {
+      bool fin = growersDone.load(std::memory_order_acquire) >= growers;
+      for (int i = 0; i < n0; ++i) {
+        if (refs[i]->val != i + 1 || its[i]->val != i + 1 || v[(size_t)i].val != i + 1)
+          ++w.mis;
+        if (&*its[i] != refs[i] || (long long)(its[i] - v.begin()) != i)
+          ++w.mis;
+      }
+      long long s = (long long)v.size();
+      if (s < last) // size() never shrinks while the vector only grows
+        ++w.mis;
+      last = s;
+      ++w.reads;
+      if (fin)
+        break;
+    }
+  }
+
+  static void finish(void* pv, Final& f) {
+    V* v = static_cast<V*>(pv);
+    f.size = clip((long long)v->size());
+    f.enddist = clip((long long)(v->end() - v->begin()));
+    long long n = f.size < 0 ? 0 : (f.size > kMaxData ? kMaxData : f.size);
+    f.data.clear();
+    for (long long i = 0; i < n; ++i)
+      f.data.push_back(clip((*v)[(size_t)i].val));
+    // a traversal with iterators yields the same elements as operator[]
+    long long i = 0;
+    f.itmis = 0;
+    if (f.enddist == f.size) {
+      for (auto it = v->begin(); it != v->end() && i < n; ++it, ++i)
+        if (clip(it->val) != f.data[(size_t)i] || &*it != &(*v)[(size_t)i])
+          ++f.itmis;
+      if (i != n)
+        ++f.itmis;
+    }
+    v->~V();
+    free(pv);
+  }
+};
+
+struct VTable {
+  void* (*create)(const Config&);
+  void (*grower)(void*, Work&);
+  void (*reader)(void*, int, Work&, std::atomic<int>&, int);
+  void (*finish)(void*, Final&);
+};
+template <class V>
+VTable vtableOf() {
+  return VTable{&SX<V>::create, &SX<V>::grower, &SX<V>::reader, &SX<V>::finish};
+}
+template <size_t N, bool Inl, bool Fast>
+VTable vtStrat(int strat) {
+  switch (strat) {
+    case 0:
+      return vtableOf<dispenso::ConcurrentVector<SElem<N>, Traits<Inl, Fast, 0>>>();
+    case 1:
+      return vtableOf<dispenso::ConcurrentVector<SElem<N>, Traits<Inl, Fast, 1>>>();
+    default:
+      return vtableOf<dispenso::ConcurrentVector<SElem<N>, Traits<Inl, Fast, 2>>>();
+  }
+}
+template <size_t N>
+VTable vtTraits(const Config& c) {
+  if (c.inl)
+    return c.fast ? vtStrat<N, true, true>(c.strat) : vtStrat<N, true, false>(c.strat);
+  return c.fast ? vtStrat<N, false, true>(c.strat) : vtStrat<N, false, false>(c.strat);
+}
+VTable vtPick(const Config& c) {
+  if (c.f == 1)
+    return vtTraits<256>(c);
+  if (c.f == 2)
+    return vtTraits<128>(c);
+  return vtTraits<64>(c);
+}
+
+void workerMain(int w) {
+  t_slot = &g_slots[1 + w];
+  long long seen = -1;
+  unsigned spins = 0;
+  for (;;) {
+    long long r = g_sh.go.load(std::memory_order_acquire);
+    if (r == seen) {
+      if (g_sh.quit.load(std::memory_order_acquire))
+        return;
+      relax(spins);
+      continue;
+    }
+    seen = r;
+    if (w < g_sh.growers) {
+      g_sh.growerFn(g_sh.vec, g_sh.w[w]);
+      g_sh.growersDone.fetch_add(1, std::memory_order_acq_rel);
+    } else if (w == kReaderIdx && g_sh.reader) {
+      g_sh.readerFn(g_sh.vec, g_sh.n0, g_sh.w[w], g_sh.growersDone, g_sh.growers);
+    }
+    g_sh.done.fetch_add(1, std::memory_order_acq_rel);
+  }
+}
+
+void printTotals(long long stuck) {
+  printf(
+      "DRIVER executions=%lld steps=%lld completed=%lld deadlocks=%lld diverged=0 stuck=0\n",
+      g_roundsDone + stuck,
+      g_opsDone,
+      g_roundsDone,
+      stuck);
+  fflush(stdout);
+}
+
+// A round that does not finish within the grace period is reported as a record and ends the run (the
+// threads that hang cannot be joined).
+void watchdogMain() {
+  const long long graceNs = 10LL * 1000 * 1000 * 1000;
+  while (!g_sh.quit.load(std::memory_order_acquire)) {
+    usleep(50 * 1000);
+    long long b = g_sh.beat.load(std::memory_order_acquire);
+    if (b != 0 && nowNs() - b > graceNs && !g_sh.quit.load(std::memory_order_acquire)) {
+      std::lock_guard<std::mutex> lk(g_outMu);
+      fprintf(
+          g_out,
+          "{\"e\":\"CVec\",\"round\":%lld,\"stuck\":1,\"done\":%d}\n",
+          g_sh.round.load(std::memory_order_acquire),
+          g_sh.done.load(std::memory_order_acquire));
+      fflush(g_out);
+      printTotals(1);
+      _exit(0);
+    }
+  }
+}
+
+void randomRound(uint64_t& rng, Config& c, int& growers, bool& reader, Work* w) {
+  auto rnd = [&](int n) { return (int)(ctl::splitmix(rng) % (uint64_t)n); };
+  static const int fs[] = {1, 1, 2, 2, 4};
+  c.f = fs[rnd(5)];
+  c.strat = rnd(3);
+  c.inl = rnd(2);
+  c.fast = rnd(2);
+  c.n0 = rnd(3) == 0 ? 0 : rnd(c.f == 4 ? kMaxN0 + 1 : 7);
+  growers = 2 + rnd(3);
+  long long worst = c.n0; // upper bound of the final size
+  const long long limit = 96;
+  for (int t = 0; t < growers; ++t) {
+    Work& wk = w[t];
+    wk = Work();
+    wk.spin = rnd(4) == 0 ? rnd(2000) : rnd(120);
+    int nops = 1 + rnd(kMaxOps);
+    for (int k = 0; k < nops; ++k) {
+      SOp o;
+      o.v = (t + 1) * 100000 + wk.nops * 100;
+      int r = rnd(20);
+      if (r < 8) {
+        o.kind = kPush + rnd(3);
+        o.n = 1;
+      } else if (r < 16) {
+        o.kind = kGrowd + rnd(5);
+        int a = rnd(12);
+        o.n = a == 0 ? 0 : a < 8 ? 1 + rnd(3) : a < 11 ? 4 + rnd(5) : 9 + rnd(12);
+        if (o.kind == kGrowi && o.n > 3)
+          o.n = 3;
+      } else {
+        o.kind = rnd(2) ? kGtal : kGtalv;
+        o.n = 1 + rnd((int)worst + 4);
+      }
+      if (worst + o.n > limit) // (a grow_to_at_least(n) adds at most n elements)
+        continue;
+      worst += o.n;
+      wk.ops[wk.nops++] = o;
+    }
+  }
+  reader = c.n0 > 0 && rnd(2) == 0;
+  w[kReaderIdx] = Work();
+  w[kReaderIdx].spin = rnd(200);
+}
+
+void writeRecord(long long round, const Config& c, int growers, bool reader, const Final& f, long long dbl,
+                 long long baddtor, long long bal) {
+  std::string s;
+  char b[256];
+  snprintf(
+      b,
+      sizeof b,
+      "{\"e\":\"CVec\",\"round\":%lld,\"stuck\":0,\"F\":%d,\"strat\":%d,\"inl\":%d,\"fast\":%d,\"n0\":%d,\"thr\":[",
+      round,
+      c.f,
+      c.strat,
+      c.inl,
+      c.fast,
+      c.n0);
+  s += b;
+  for (int t = 0; t < growers; ++t) {
+    const Work& w = g_sh.w[t];
+    snprintf(b, sizeof b, "%s{\"mis\":%lld,\"ops\":[", t ? "," : "", clip(w.mis));
+    s += b;
+    for (int k = 0; k < w.nops; ++k) {
+      const SOp& o = w.ops[k];
+      snprintf(
+          b,
+          sizeof b,
+          "%s[\"%s\",%lld,%d,%lld,%lld]",
+          k ? "," : "",
+          kKindName[o.kind],
+          o.n,
+          o.v,
+          o.p,
+          o.s);
+      s += b;
+    }
+    s += "]}";
+  }
+  const Work& rw = g_sh.w[kReaderIdx];
+  snprintf(
+      b,
+      sizeof b,
+      "],\"rd\":{\"on\":%d,\"mis\":%lld,\"passes\":%lld},\"size\":%lld,\"enddist\":%lld,\"itmis\":%lld,\"dbl\":%lld,"
+      "\"baddtor\":%lld,\"bal\":%lld,\"data\":[",
+      reader ? 1 : 0,
+      clip(rw.mis),
+      clip(rw.reads),
+      f.size,
+      f.enddist,
+      clip(f.itmis),
+      clip(dbl),
+      clip(baddtor),
+      clip(bal));
+  s += b;
+  for (size_t i = 0; i < f.data.size(); ++i) {
+    snprintf(b, sizeof b, "%s%lld", i ? "," : "", f.data[i]);
+    s += b;
+  }
+  s += "]}\n";
+  std::lock_guard<std::mutex> lk(g_outMu);
+  fwrite(s.data(), 1, s.size(), g_out);
+}
+
+int run(const drv::Args& a) {
+  std::string out = a.str("out", "cvec_obs.ndjson");
+  g_out = fopen(out.c_str(), "w");
+  if (!g_out)
+    return 2;
+  long long rounds = a.num("stress", 1000);
+  uint64_t rng = (uint64_t)a.num("seed", 1) * 0x9e3779b97f4a7c15ULL + 33;
+  std::vector<std::thread> workers;
+  for (int w = 0; w < kWorkers; ++w)
+    workers.emplace_back(workerMain, w);
+  std::thread watchdog(watchdogMain);
+  Final fin;
+  long long tCreate = 0, tRun = 0, tFinish = 0, tBegin = nowNs();
+  for (long long r = 0; r < rounds; ++r) {
+    Config c;
+    int growers = 0;
+    bool reader = false;
+    randomRound(rng, c, growers, reader, g_sh.w);
+    VTable vt = vtPick(c);
+    for (auto& sl : g_slots)
+      sl = Slot();
+    g_sh.round.store(r, std::memory_order_release);
+    long long t0 = nowNs();
+    g_sh.beat.store(t0, std::memory_order_release);
+    g_sh.vec = vt.create(c);
+    g_sh.growers = growers;
+    g_sh.reader = reader;
+    g_sh.n0 = c.n0;
+    g_sh.growerFn = vt.grower;
+    g_sh.readerFn = vt.reader;
+    g_sh.growersDone.store(0, std::memory_order_relaxed);
+    g_sh.done.store(0, std::memory_order_relaxed);
+    long long t1 = nowNs();
+    g_sh.go.store(r, std::memory_order_release);
+    unsigned spins = 0;
+    while (g_sh.done.load(std::memory_order_acquire) != kWorkers)
+      relax(spins); // (the watchdog ends the process if this never happens)
+    long long t2 = nowNs();
+    vt.finish(g_sh.vec, fin);
+    long long t3 = nowNs();
+    tCreate += t1 - t0;
+    tRun += t2 - t1;
+    tFinish += t3 - t2;
+    long long dbl = 0, baddtor = 0, bal = 0;
+    for (auto& sl : g_slots) {
+      dbl += sl.dbl;
+      baddtor += sl.baddtor;
+      bal += sl.ctors - sl.dtors;
+    }
+    writeRecord(r, c, growers, reader, fin, dbl, baddtor, bal);
+    ++g_roundsDone;
+    for (int t = 0; t < growers; ++t)
+      g_opsDone += g_sh.w[t].nops;
+  }
+  g_sh.quit.store(1, std::memory_order_release);
+  for (auto& t : workers)
+    t.join();
+  watchdog.join();
+  fclose(g_out);
+  if (a.has("timing"))
+    fprintf(
+        stderr,
+        "stress timing (ms): create %lld, concurrent phase %lld, finish %lld, total %lld\n",
+        tCreate / 1000000,
+        tRun / 1000000,
+        tFinish / 1000000,
+        (nowNs() - tBegin) / 1000000);
+  printTotals(0);
+  return 0;
+}
+
+} // namespace stress
+
 int main(int argc, char** argv) {
   drv::Args a(argc, argv);
+  if (a.has("stress")) {
+    int rc = stress::run(a);
+    fflush(stdout);
+    _exit(rc);
+  }
   ctl::Trace tr(a.str("out", "cvec.ndjson"));
   drv::Totals tot;
   Config c;
